@@ -461,7 +461,9 @@ def execute(spec):
         E.use("serial0")
         _reset(ph)
         out = fn(ph, w, a, st)
-        bad, bit = compare(out, ref, 1e-10)
+        # F carries the zero-point energy, which phonopy sums over f > 0 (not over f > cutoff): an acoustic Gamma mode of
+        # +-1e-7 THz (noise whose sign differs between the batched and the per-q solver) moves F by ~1e-8 kJ/mol
+        bad, bit = compare(out, ref, 1e-10, atol=(1e-6 if driver == "mesh_tp" else 1e-13))
         for name, d, sc in bad:
             violations.append({"class": "build-divergence", "site": "%s:%s" % (driver, name), "detail": dict(maxdiff=d, scale=sc, builds="sim(T=1) vs serial0")})
         steps["build_comparisons"] = 1
@@ -497,7 +499,9 @@ def execute(spec):
             pyref = {"dynmat": np.array(dms)}
             E.use(variant)
         if pyref is not None:
-            bad, _ = compare(ref, pyref, 1e-8, atol=1e-10)
+            # absolute floor on the natural scale of the quantity (thermal properties are O(1..100) kJ/mol, J/K/mol; a
+            # 1e-8 kJ/mol difference between the C and the Python formula is constant/rounding noise, not a divergence)
+            bad, _ = compare(ref, pyref, 1e-8, atol=(1e-6 if driver == "mesh_tp" else 1e-10))
             for name, d, sc in bad:
                 violations.append({"class": "reference-divergence", "site": "%s:%s" % (driver, name), "detail": dict(maxdiff=d, scale=sc, ref="in-repository Python version")})
             steps["python_reference_comparisons"] = 1
